@@ -158,6 +158,11 @@ def table_rows(w):
                 key = row[cols.index('pk')] if 'pk' in cols else repr(row)
                 rows[key] = hashlib.blake2b(repr(row).encode(), digest_size=8).hexdigest()
             out[t] = rows
+            if t == 'User' and 'groups_mask' in cols:
+                # what a user may do is a column of its row: kept as a pseudo-table of its own, so that a change of
+                # privileges is told apart from a change of e-mail address or password
+                out['User.privileges'] = {row[cols.index('pk')]: (row[cols.index('groups_mask')], row[cols.index('username')])
+                                          for row in cur.execute('select * from "User"').fetchall()}
         cur.close()
         w.models.db.session.remove()
     return out
